@@ -271,6 +271,12 @@ fn check_roundtrip<G: GraphLike, H: GraphLike + 'static>(
     if !via_serde && c.route % 3 == 1 {
         // through a file
         let path = super::c03::tmp_path("c13");
+        // the path may already hold a (longer) document from an earlier save
+        if c.in_keys.len() % 2 == 0 {
+            let old = format!("{{\"wire_vertices\":{{}},\"padding\":\"{}\"}}", "x".repeat(text.len() + 64));
+            std::fs::write(&path, old).map_err(|e| format!("harness: {e}"))?;
+            obs.class("route:file-overwrites-longer");
+        }
         let w = guarded(&format!("{name}: write_graph"), || quizx::json::write_graph(&g, &path));
         let back = w.and_then(|r| {
             r.map_err(|e| format!("{name}: write_graph failed: {e}"))?;
